@@ -404,7 +404,14 @@ func c15QueuedPreset(rng *rand.Rand) (string, string) {
 	if _, err := rc.Connect(ctx, "verif"); err != nil {
 		return "inconclusive", err.Error()
 	}
-	if err := rc.Publish(ctx, &mqtt.Message{Topic: "c15/first", QoS: mqtt.QoS1, Payload: []byte("1")}); err != nil {
+	// half the time the first message carries a caller-set identifier as well: it must survive the
+	// retransmission over the second client
+	var id1 uint16
+	if rng.Intn(2) == 0 {
+		id1 = uint16(1 + rng.Intn(65535))
+	}
+	qos1 := mqtt.QoS(1 + rng.Intn(2))
+	if err := rc.Publish(ctx, &mqtt.Message{Topic: "c15/first", QoS: qos1, ID: id1, Payload: []byte("1")}); err != nil {
 		return "inconclusive", err.Error()
 	}
 	// wait until the first request has failed into the retry queue
@@ -428,6 +435,9 @@ func c15QueuedPreset(rng *rand.Rand) (string, string) {
 		return "inconclusive", "retry queue stayed empty"
 	}
 	id := uint16(1 + rng.Intn(65535))
+	if id == id1 {
+		id++
+	}
 	qos := mqtt.QoS(1 + rng.Intn(2))
 	if err := rc.Publish(ctx, &mqtt.Message{Topic: "c15/preset", QoS: qos, ID: id, Payload: []byte("2")}); err != nil {
 		return "inconclusive", err.Error()
@@ -439,6 +449,20 @@ func c15QueuedPreset(rng *rand.Rand) (string, string) {
 	}
 	rc.Retry(ctx)
 	in, got := peer.WaitIn(scen.Watchdog, 1, func(p *mqttref.Packet) bool { return p.Type == mqttref.PUBLISH && p.Topic == "c15/preset" })
+	if id1 != 0 {
+		// (the retransmission of the first message precedes the queued one on the wire)
+		first, _ := peer.WaitIn(time.Millisecond, 2, func(p *mqttref.Packet) bool { return p.Type == mqttref.PUBLISH && p.Topic == "c15/first" })
+		for n, f := range first {
+			if f.P.ID != id1 {
+				cli2.Close()
+				return "preset-id-changed", fmt.Sprintf("QoS%d message with caller-set identifier %d: transmission #%d (connection %d) carried identifier %d", qos1, id1, n+1, f.Conn, f.P.ID)
+			}
+		}
+		if got && len(first) < 2 {
+			cli2.Close()
+			return "inconclusive", "retransmission of the first message not seen (C01's concern)"
+		}
+	}
 	cli2.Close()
 	if !got {
 		return "inconclusive", "queued publish never transmitted (C01's concern)"
